@@ -127,7 +127,7 @@ func product(cfg config) { productOps(cfg, false) }
 
 func productOps(cfg config, multi bool) {
 	ops := chunkOps(multi)
-	b := &engine.BFS{NumOps: len(ops), MaxStates: 400000, Stop: func() bool { return ctx.ViolationCount() > 0 }}
+	b := &engine.BFS{NumOps: len(ops), MaxStates: 400000, MaxTransitions: map[bool]int64{false: 400000, true: 2500000}[multi], Stop: func() bool { return ctx.ViolationCount() > 0 }}
 	b.Run = func(path []uint16) (string, bool) {
 		var stream []byte
 		var chunks []int
@@ -301,6 +301,133 @@ func sysexSizes(part, parts int) {
 	}
 }
 
+// longChunkClasses: reduced alphabet for long streams handed over in one or
+// two Send calls (per-chunk shortcuts in a decoder: "this chunk is exactly one
+// message", word-at-a-time scans): two data values, two channel statuses,
+// sysex start/end, a real-time byte, an undefined status.
+var longChunkClasses = []byte{0x01, 0x7F, 0x90, 0xC0, 0xF0, 0xF7, 0xF8, 0xF4}
+
+// longChunks: every stream over longChunkClasses up to the bound that starts
+// with (c0, c1): in one chunk, and cut in two at every position.
+func longChunks(cfg config, c0, c1 int) {
+	maxLen := ctx.Pick(6, 8)
+	stream := append(make([]byte, 0, maxLen), longChunkClasses[c0], longChunkClasses[c1])
+	var rec func()
+	rec = func() {
+		n := len(stream)
+		ctx.Eval()
+		ctx.Add("long_chunk_streams", 1)
+		feed(cfg, stream, []int{n}, 0)
+		for cut := 1; cut < n; cut++ {
+			ctx.Eval()
+			feed(cfg, stream, []int{cut, n - cut}, 0)
+		}
+		if n == maxLen {
+			return
+		}
+		for _, c := range longChunkClasses {
+			stream = append(stream, c)
+			rec()
+			stream = stream[:n]
+		}
+	}
+	rec()
+}
+
+// sysexWords: a sysex whose payload holds one or two non-data bytes at every
+// pair of positions, long enough for any word-at-a-time scan (payload up to 20
+// bytes, buffer large enough), in one chunk and in two.
+func sysexWords(part, parts int) {
+	cfg := config{true, 64}
+	specials := []byte{0xF8, 0xF7, 0x90, 0xF4, 0xFE}
+	for n := 1 + part; n <= 20; n += parts {
+		for p := 0; p < n; p++ {
+			for q := p; q < n; q++ {
+				for _, a := range specials {
+					for _, b := range specials {
+						if p == q && a != b {
+							continue
+						}
+						st := []byte{0xF0}
+						for i := 0; i < n; i++ {
+							st = append(st, byte(1+i))
+						}
+						st[1+p], st[1+q] = a, b
+						st = append(st, 0xF7, 0x90, 0x10, 0x20)
+						ctx.Eval()
+						ctx.Add("sysex_word_streams", 1)
+						feed(cfg, st, []int{len(st)}, 0)
+						ctx.Eval()
+						feed(cfg, st, []int{1, len(st) - 1}, 0)
+						if (p+q)%3 == 0 {
+							ctx.Eval()
+							feed(cfg, st, []int{1 + p, len(st) - 1 - p}, 0)
+						}
+					}
+				}
+			}
+		}
+	}
+}
+
+// longLived: one reader decodes tens of thousands of messages (anything the
+// decoder keeps for its whole life - pools, counters, buffers that are refilled
+// every so many messages - is exercised past its first refill).
+func longLived(which int) {
+	cfg := config{true, 5}
+	const n = 30000
+	var st []byte
+	var chunks []int
+	add := func(b ...byte) { st = append(st, b...); chunks = append(chunks, len(b)) }
+	switch which {
+	case 0: // one real-time byte, then note-ons only
+		add(0xF8)
+		for i := 0; i < n; i++ {
+			add(0x90, byte(i%128), byte(1+i%127))
+		}
+	case 1: // two real-time bytes, then a mix of three-, two- and one-byte messages
+		add(0xF8)
+		add(0xFA)
+		for i := 0; i < n; i++ {
+			switch i % 5 {
+			case 0, 1, 2:
+				add(0xB0+byte(i%16), byte(i%128), byte(i%97))
+			case 3:
+				add(0xC0+byte(i%16), byte(i%128))
+			case 4:
+				add(0xFE)
+			}
+		}
+	case 2: // running status bytewise, a short sysex every 50 messages
+		add(0x91)
+		for i := 0; i < n; i++ {
+			add(byte(i % 128))
+			add(byte(1 + i%100))
+			if i%50 == 49 {
+				add(0xF0, 0x01, 0x02, 0xF7)
+				add(0x91)
+			}
+		}
+	case 3: // everything in large chunks
+		var blk []byte
+		for i := 0; i < n; i++ {
+			blk = append(blk, 0x80+byte(i%16), byte(i%128), 0x00)
+			if i%7 == 0 {
+				blk = append(blk, 0xF8)
+			}
+			if len(blk) > 1000 {
+				add(blk...)
+				blk = nil
+			}
+		}
+		add(blk...)
+	}
+	ctx.Eval()
+	ctx.Add("long_lived_streams", 1)
+	ctx.Add("long_lived_bytes", int64(len(st)))
+	feed(cfg, st, chunks, 0)
+}
+
 func feedSized(cfg config, eff int, stream []byte, chunks []int) {
 	refBuf = eff
 	feed(cfg, stream, chunks, 0)
@@ -351,6 +478,10 @@ func main() {
 			}
 		}
 	})
+	nl := len(longChunkClasses)
+	ctx.Jobs("long-chunks", 2*nl*nl, func(j int) { longChunks(cfgs[j/(nl*nl)], (j/nl)%nl, j%nl) })
+	ctx.Jobs("sysex-words", 10, func(j int) { sysexWords(j, 10) })
+	ctx.Jobs("long-lived", 4, func(j int) { longLived(j) })
 	ctx.Set("traces_validated_against_impl", ctx.GetInt("transitions"))
 	ctx.Set("max_depth", ctx.GetInt("max:depth"))
 	ctx.Set("byte_classes", len(ls.Classes))
@@ -359,7 +490,7 @@ func main() {
 	ctx.Sample(map[string]interface{}{"stream": "F0 01 01 01 01 F7 with buffer 5", "expect": "6-byte sysex exceeds the buffer and is dropped, no panic"})
 	ctx.NontrivialN(ctx.GetInt("states"))
 	ctx.Guard(ctx.GetInt("states") > 1000, "product state space suspiciously small: %d", ctx.GetInt("states"))
-	ctx.Finish("product automaton (decoder private state x reference receiver state) explored by BFS over 23 byte classes to the fixpoint for 4 configurations; all streams up to length 5/6 with all chunkings up to length 4/5; garbage prefixes up to 3 classes followed by two well-formed messages; non-trivial = distinct product states")
+	ctx.Finish("product automaton (decoder private state x reference receiver state) explored by BFS over 23 byte classes to the fixpoint for 4 configurations; all streams up to length 5/6 with all chunkings up to length 4/5; garbage prefixes up to 3 classes followed by two well-formed messages; all streams up to length 6/8 over 8 classes in one chunk and cut in two; sysex payloads up to 20 bytes with non-data bytes at every pair of positions; four streams of 30000 messages on one reader; non-trivial = distinct product states")
 }
 
 func replay() {
